@@ -1215,6 +1215,14 @@ def gen_tick_rearm(seed, mode="loop"):
     if r.random() < 0.3:
         steps.append([("ctx_tick", 0)])
         steps.append([("sleep", 1500)])
+    if r.random() < 0.4:
+        # the subscriber is paused for several (short) periods and resumed: no burst of stale ticks
+        steps.append([("pause", 1)])
+        for _ in range(r.randrange(8, 14)):
+            steps.append([("sleep", 2000)])
+        steps.append([("resume", 1)])
+        steps.append([])
+        steps.append([])
     steps.append([("ctx_tick", long_)])
     for _ in range(r.randrange(10, 16)):
         steps.append([("sleep", 2000)])
